@@ -167,6 +167,33 @@ def literal(v, r):
     return '(-%s)' % s if v < 0 else s
 
 
+# ---- histories: many operations in ONE process, because an operation may leave something behind (a recycled temporary, a shared constant
+# written to) that only a LATER operation shows.  bool operands (True is the integer 1) meet big ints; operations that allocate
+# temporaries differently (shifts, **, /, bin) are mixed in; floor division, modulo and divmod with negative inexact quotients, which
+# lean on the constants 0 and 1 internally, are the probes.
+HIST_HEAD = 'B = 2 ** 64\nC = -(2 ** 64)\nD = 2 ** 70 + 1\nE = 10 ** 30\nF = 2 ** 63\n'
+HIST_BOOL = ['B + True', 'True + B', 'B - False', 'B * True', 'B > False', 'B == True', 'True < B', 'B & True', 'B | False', 'B ^ True', 'B // True', 'B % True', 'divmod(B, True)', 'C + True', 'D * False',
+             'F + True', 'True - F', 'C >= True', 'False * E', 'D - True']
+HIST_TEMP = ['B << 3', 'B >> 2', 'B ** 2', 'pow(B, 3, 1000007)', 'B / 7', 'bin(B)', 'hex(D)', 'C >> 70', 'D << 1', 'str(E)', 'int("18446744073709551617")']
+HIST_PROBE = ['-B // 3', 'C // 3', 'C % 7', 'divmod(B, -7)', 'divmod(C, 10 ** 30)', 'C // E', 'B // -E', '(C // 3) * 3 + C % 3 == C', 'B + 1', 'B - 1', 'B * 3', 'D % -1000', 'B + 5 - B', 'abs(C)', '-C == B',
+              'B > 1', 'C < -1', 'B & 1', 'B | 1', 'B ^ 1', 'F - 1', '-F - 1', 'F // -3', 'divmod(-F, 7)', 'B + 0', 'B * 1', 'C * 0', 'E // 7', '-E % 13', 'B - B', 'D // D', 'C // B']
+
+
+def history_programs(tier, r):
+    out = []
+    n = 60 if tier == 'quick' else 1500
+    for i in range(n):
+        exprs = []
+        for k in range(40):
+            p = r.random()
+            exprs.append(r.choice(HIST_BOOL) if p < 0.25 else (r.choice(HIST_TEMP) if p < 0.45 else r.choice(HIST_PROBE)))
+        if i % 3 == 0:
+            exprs[0] = r.choice(HIST_BOOL)              # the very first mixed operation of the process involves a bool
+        src = HIST_HEAD + ''.join('try:\n    print(%s)\nexcept TypeError:\n    print("TypeError")\n' % e for e in exprs)
+        out.append({'id': 'hist%d' % i, 'src': src, 'exprs': exprs})
+    return out
+
+
 def run(tier, rep):
     r = rng(PID)
     L = lattice(tier)
@@ -362,12 +389,39 @@ def run(tier, rep):
             if l not in e:
                 opname = expr.split(' ')[1]
                 rep.violation('C07|src|op=%s|wrong' % opname, {'case': {'id': 'x', 'src': 'print(%s)\n' % expr}, 'expr': expr, 'expected': e, 'got': l})
+    # ---------------- histories in one process -----------------
+    hp = history_programs(tier, r)
+    hexp = common.oracle_exec([{'id': c['id'], 'src': c['src']} for c in hp])
+    hgot, _ = run_vrun('exec', [{'id': c['id'], 'src': c['src']} for c in hp], timeout_case=30, extra=['-percase'])
+    hstats = {'programs': 0, 'expressions_judged': 0, 'bool_operand_unsupported': 0}
+    for c in hp:
+        e, g = hexp.get(c['id']) or {}, hgot.get(c['id'])
+        if g is None or g.get('timeout') or e.get('oracle_failed') or e.get('exc'):
+            rep.inconc('history program %s: no result' % c['id'])
+            continue
+        if g.get('panic') or g.get('crash') or g.get('exc') or g.get('cerr'):
+            rep.violation('C07|history|abnormal:%s' % (g.get('exc') or g.get('cerr') or 'panic'), {'case': {'id': c['id'], 'src': c['src']}, 'got': {k: short(v) for k, v in g.items()}})
+            continue
+        hstats['programs'] += 1
+        el, gl = e.get('out', '').split('\n')[:-1], g.get('out', '').split('\n')[:-1]
+        for k, ex in enumerate(c['exprs']):
+            x, y = (el[k] if k < len(el) else None), (gl[k] if k < len(gl) else None)
+            if y == 'TypeError' and ('True' in ex or 'False' in ex):
+                hstats['bool_operand_unsupported'] += 1      # gpython's bool is not an int subclass everywhere: a missing feature, not a wrong value
+                continue
+            hstats['expressions_judged'] += 1
+            nontriv.add(('hist', ex, c['exprs'][k - 1] if k else ''))
+            if x != y:
+                cls_ = 'bool-operand' if ('True' in ex or 'False' in ex) else ('probe' if ex in HIST_PROBE else 'temp')
+                rep.violation('C07|history|%s|wrong-value-after-earlier-operations' % cls_, {'case': {'id': c['id'], 'src': c['src']}, 'expression': ex, 'position': k, 'earlier': c['exprs'][:k][-6:], 'expected': x, 'got': y})
+                break
+    rep_hist = hstats
     rep.nontrivial = nontriv
     rep.samples = samples or [{'op': meta['a0'][0], 'operands': [str(v) for v in meta['a0'][1]]}]
     rep.samples.append({'source_program_excerpt': progs[0]['src'][:300]})
     rep.rule = ('boundary lattice (%d values: 0,+-1,+-2 and +-(2^31, isqrt(2^63-1), 2^32, 2^62, 2^63, 2^64, 2^127)+delta) squared x %d binary ops x every Int/BigInt representation combination; '
-                'shifts, pow, 3-arg pow (sampled in quick), seeded random 1..192-bit operands, text conversion in bases 0/2/8/10/16/36; same operators compiled from source with hex/oct/bin/decimal literal spellings. '
+                'shifts, pow, 3-arg pow (sampled in quick), seeded random 1..192-bit operands, text conversion in bases 0/2/8/10/16/36; same operators compiled from source with hex/oct/bin/decimal literal spellings; histories of 40 operations in one fresh process mixing bool operands, temporaries-allocating operations and floor-division probes. '
                 'non-trivial = distinct (op, operands) where an operand needs or is forced into the arbitrary-precision representation, plus distinct source expressions' % (len(L), len(BINOPS)))
-    rep.extra = {'lattice_size': len(L), 'api_cases': len(cases), 'source_programs': len(progs), 'source_expressions': sum(len(v) for v in pexp.values())}
+    rep.extra = {'histories': rep_hist, 'lattice_size': len(L), 'api_cases': len(cases), 'source_programs': len(progs), 'source_expressions': sum(len(v) for v in pexp.values())}
     rep.assumptions = ['CPython %s exact ints are the reference' % '.'.join(map(str, __import__('sys').version_info[:3])),
                        '3-arg pow with negative exponent: TypeError or ValueError accepted (3.4 raised; type differs across 3.x)']
